@@ -131,6 +131,13 @@ def r15_2(ctx, b, rc, info):
     want = scol + Tx + (Y + Ty) * W
     ctx.check(ds == want, R, key + '|placement', call_line(b, bi), 'dest index = source col + Tx + (y + Ty)*width with T the clipping translation',
               'clipping translates the source rectangle by %s but the copy loop writes source pixel (col, y) to index %s; with that translation it would be %s — the block that is clipped is not the block that is placed (a src_rect whose origin is not (0,0) is cut short or lands shifted)' % (fmt(b, T), ds.show(b), want.show(b)))
+    # when the offset is written as a difference of points, its operands must be the *arguments* dst and src_rect.min
+    # (not the clamped rectangle: the property maps src_rect.min + (i,j) to dst + (i,j) for the rectangle as passed in)
+    if is_call(T, 'ops::Sub::sub') and len(T[2]) == 2:
+        a0, a1 = strip_all(T[2][0]), strip_all(T[2][1])
+        ok_ops = a0 == ('param', P_DST) and a1[0] == 'field' and a1[2] == 'min' and strip_all(a1[1]) == ('param', P_SRCRECT)
+        ctx.check(ok_ops, R, key + '|offset operands', call_line(b, trs[0][0]), 'offset = dst - src_rect.min of the arguments as passed',
+                  'the source-to-destination offset is %s: it must be the dst argument minus the min corner of the src_rect argument as passed in; taken from the rectangle after clamping to the source, a src_rect that starts outside the source lands shifted' % fmt(b, T))
     D = Deps(an)
     lv = D.closure(T)
     ok_dst = ('param', P_DST) in lv
